@@ -13,13 +13,13 @@ import (
 func init() {
 	register(&PropDef{
 		ID: "C18", Level: "exploration", Quick: 1500, Thorough: 150000, QuickCap: 110,
-		Rule:   "each run = a table of 3-60 rows with a drawn number of cells (so that the scan spans 1..several response messages; the batch size is never assumed), one scanner task (full scan or 2-3 ranges) and 1-3 writer tasks (one writer per row; SetCell, DeleteFromColumn, DeleteFromRow, re-insert, ReadModifyWrite) on rows before, at and after the scan position, interleaved by the seeded scheduler (the stream's Send is where the table lock is free); oracle: ascending keys, no duplicates, every returned row is a state that row had inside the scan window, unwritten rows exact, final status OK; distinct = trace hash; non-trivial = a writer operation completed between two messages of the scan",
+		Rule:   "each run = a table of 3-60 rows with a drawn number of cells (so that the scan spans 1..several response messages; the batch size is never assumed), one scanner task (full scan, 2-3 ranges, ranges plus repeated keys, or keys only with every row named twice) and 1-3 writer tasks (one writer per row; SetCell, DeleteFromColumn, DeleteFromRow, re-insert, ReadModifyWrite) on rows before, at and after the scan position, interleaved by the seeded scheduler (the stream's Send is where the table lock is free); oracle: ascending keys, no duplicates, every returned row is a state that row had inside the scan window, unwritten rows exact, final status OK; distinct = trace hash; non-trivial = a writer operation completed between two messages of the scan",
 		Real:   []string{"bttest ReadRows (lock reversal around Send), MutateRow, ReadModifyWriteRow", "goleveldb snapshot iteration (memory and disk engines)"},
 		Stub:   []string{"gRPC stream (recording stream whose Send yields)", "cooperative table mutex"},
 		Assume: []string{"a row written during the scan may show any state it had inside the scan window; a row that is non-empty in all of those states must be present", "btree engine excluded (it documents that it does not offer this)"},
 		Run:    runC18,
 	})
-	expectedProbes["C18"] = []string{"c18.multi_message", "c18.write_between_messages", "c18.row_deleted_during_scan", "c18.row_inserted_during_scan", "c18.returned_old_state", "c18.returned_new_state"}
+	expectedProbes["C18"] = []string{"c18.multi_message", "c18.write_between_messages", "c18.row_deleted_during_scan", "c18.row_inserted_during_scan", "c18.returned_old_state", "c18.returned_new_state", "c18.keys_only_rowset"}
 }
 
 type rowVersion struct {
@@ -172,6 +172,18 @@ func runC18(r *Run) {
 		rowset.ranges = []mRange{{end: mBound{1, keys[x[0]]}}, {start: mBound{2, keys[x[1]]}, end: mBound{2, keys[x[2]]}}}
 		if d.n(2) == 1 {
 			rowset.ranges = append(rowset.ranges, mRange{start: mBound{1, keys[x[2]]}})
+		}
+		switch d.n(4) {
+		case 2:
+			// single keys as well, some of them twice or inside a range
+			rowset.keys = []string{keys[x[1]], keys[a], keys[x[1]]}
+		case 3:
+			// keys only, with repeats (the whole table, every row named twice, in no order)
+			rowset.ranges = nil
+			for i := range keys {
+				rowset.keys = append(rowset.keys, keys[(i*7+a)%nRows], keys[i])
+			}
+			r.Probe("c18.keys_only_rowset")
 		}
 	}
 	var msgEvt []int64
